@@ -246,6 +246,8 @@ def shared():
     from tx import p_c12
     return ([dict(o, id="size/" + o["id"]) for o in p_c10.dim_contract() if "one statement" in o["id"]] + __import__("tx.p_c05", fromlist=["share"]).share("deps/", p_c13.small_graphs() + p_c13.bundle_closed_through_convert() + p_c13.history() + p_c13.line_splitting() + p_c13.user_text())
             + [dict(o, id="function-of-its-arguments/" + o["id"]) for o in p_c12.persistent_state()]
+            # the label filter removes labels and nothing else: what is refused without it is refused with it (shared with C06)
+            + __import__("tx.p_c05", fromlist=["share"]).share("filter/", [o for o in __import__("tx.p_c06", fromlist=["x"]).targets_through_convert() if "numbers above the limit" in o["id"] or "filter keeps exactly" in o["id"] or "GOTO 40000" in o["id"] or "targets/" in o["id"] and "undefined" in o["id"]])
             # initialize_vars adds assignments of the program's own variables only (shared with C09)
             + __import__("tx.p_c05", fromlist=["share"]).share("init/", __import__("tx.p_c09", fromlist=["x"]).initializer_positions() + __import__("tx.p_c09", fromlist=["x"]).initializer_skips_generated()))
 
